@@ -91,6 +91,23 @@ func everyIterationOf(p *core.Program, info *types.Info, body *ast.BlockStmt, s 
 						return false
 					}
 				case *ast.BranchStmt:
+					// an unlabelled break / continue of a loop nested in this one (and around s) leaves
+					// that loop's iteration, not this one's: judged when that loop's turn comes
+					if b.Label == nil && (b.Tok == token.CONTINUE || b.Tok == token.BREAK) {
+						nested := false
+						ast.Inspect(lb, func(k ast.Node) bool {
+							switch k.(type) {
+							case *ast.RangeStmt, *ast.ForStmt:
+								if k.Pos() <= b.Pos() && b.End() <= k.End() {
+									nested = true
+								}
+							}
+							return !nested
+						})
+						if nested {
+							return true
+						}
+					}
 					if b.End() <= s.Pos() {
 						// a skip that only depends on the absence of optional data is part of the rule's domain
 						if conds := enclosingConds(lb, b); len(conds) > 0 {
@@ -135,6 +152,13 @@ func everyIterationOf(p *core.Program, info *types.Info, body *ast.BlockStmt, s 
 			// is `if c { …; return }; s`, and returns are not silent skips
 			if endsWithReturn(otherBranch(x, then)) {
 				continue
+			}
+			// `if elem != nil { s }` (or the else of `if elem == nil`): a null entry of the list is no row
+			if be, ok := ast.Unparen(x.Cond).(*ast.BinaryExpr); ok && (be.Op == token.NEQ) == then && (be.Op == token.NEQ || be.Op == token.EQL) {
+				eq := &ast.BinaryExpr{X: be.X, Op: token.EQL, Y: be.Y}
+				if isElemNilTest(info, chain, eq) {
+					continue
+				}
 			}
 			if !allowCond(x.Cond, then) {
 				return fmt.Sprintf("it is conditional on `%s` (%s)", types.ExprString(x.Cond), p.Rel(x.Pos()))
